@@ -40,6 +40,7 @@ type schedOut struct {
 	RaceBuild     bool                `json:"race_build"`
 	Ties          int                 `json:"maporder_ties"`
 	FreeformLines int                 `json:"freeform_lines"`
+	SweepLines    int                 `json:"sweep_lines"`
 	SharedChanged []string            `json:"shared_values_changed"`
 	SwitchPerK    uint32              `json:"switch_per_k"`
 	EvalPerK      uint32              `json:"eval_per_k"`
@@ -294,6 +295,8 @@ type C20Stats struct {
 	Infra       int              `json:"infra_errors"`
 	DetPairs    int              `json:"determinism_triples_checked"`
 	AfterWrite  int64            `json:"switches_landing_after_a_table_write"`
+	Freeform    int64            `json:"freeform_history_lines_run_concurrently"`
+	Sweep       int64            `json:"property_sweep_reads_run_concurrently"`
 	SiteHits    map[string]int64 `json:"yield_site_hits"`
 	Scheds      map[string]bool  `json:"-"`
 	SchedKeys   []string         `json:"sched_keys"`
@@ -338,6 +341,8 @@ func (s *C20Stats) Merge(raw json.RawMessage) error {
 	s.Infra += o.Infra
 	s.DetPairs += o.DetPairs
 	s.AfterWrite += o.AfterWrite
+	s.Freeform += o.Freeform
+	s.Sweep += o.Sweep
 	s.RaceBuild = s.RaceBuild || o.RaceBuild
 	for k, v := range o.SiteHits {
 		s.SiteHits[k] += v
@@ -527,6 +532,8 @@ func (c *c20Check) Run(seed, run uint64, rec []uint32, st Stats, only *Viol) []V
 		mk("C20/isolation/result", map[string]interface{}{"result": "same as when the task runs alone"}, map[string]interface{}{"mismatch": p})
 		break
 	}
+	s.Freeform += int64(out.FreeformLines)
+	s.Sweep += int64(out.SweepLines)
 	if out.Ties > 0 {
 		s.Infra++
 		if len(s.InfraMsgs) < 5 {
@@ -644,11 +651,13 @@ func (c *c20Check) Evidence(st Stats, tier string) (map[string]interface{}, []st
 		"infra_errors":                s.Infra,
 		"determinism_triples_checked": s.DetPairs,
 		"probe_switch_landed_after_another_tasks_table_write": s.AfterWrite,
-		"yield_site_hits":   s.SiteHits,
-		"switch_rate_swarm": s.RateHist,
-		"race_build":        s.RaceBuild,
-		"simulated_time":    "none (no clock/timers in the system); steps = yield points",
-		"fault_kinds":       "schedule choice only (goroutine interleaving); no clock, network or disk exists in these paths",
+		"freeform_history_lines_run_concurrently":             s.Freeform,
+		"property_sweep_reads_run_concurrently":               s.Sweep,
+		"yield_site_hits":                                     s.SiteHits,
+		"switch_rate_swarm":                                   s.RateHist,
+		"race_build":                                          s.RaceBuild,
+		"simulated_time":                                      "none (no clock/timers in the system); steps = yield points",
+		"fault_kinds":                                         "schedule choice only (goroutine interleaving); no clock, network or disk exists in these paths",
 		"real_vs_stub": map[string]string{
 			"real": "whole interpreter incl. di.InjectBuiltInProps goroutines, object/hashtable.go lock and tables, evaluator; real goroutines, real sync.RWMutex and channels (operations are performed after the model admits them)",
 			"stub": "the choice of which goroutine runs (token passing at AST-inserted yield points); the HTTP transport (requests are served through echo.ServeHTTP with httptest recorders: real router, real toHandler/requestToObj/handler callbacks, no sockets)",
@@ -663,7 +672,7 @@ func (c *c20Check) Evidence(st Stats, tier string) (map[string]interface{}, []st
 	return cov, []string{
 		"hand-offs between tasks are hidden from the race detector (runtime.RaceDisable), so a report means two conflicting accesses unordered by the program's own synchronisation",
 		"switches happen only at instrumented points (lock ops, package-level map accesses, symbol-table ops, entry of evaluator.Eval)",
-		"every concurrent evaluation runs in its own NewEnclosedEnv(global); user-level sharing of variables between tasks is not exercised",
+		"every concurrent evaluation runs in its own NewEnclosedEnv(global); tasks may read values of a common outer scope (free-form histories and property sweeps over a shared pool) but never assign shared variables",
 	}
 }
 
